@@ -206,7 +206,7 @@ package rjson
 //@   candidates 0 <= p; p < pe; 0 <= segStart; segStart <= p
 //@   candidates p == segStart + 1; p == segStart + 2; p == segStart + 3; p == segStart + 4; p == segStart + 5
 //@   candidates data[segStart] == '\\'; data[segStart+1] == 'u'; hexdigit(data[segStart+2]); hexdigit(data[segStart+3]); hexdigit(data[segStart+4])
-//@   sim value init=none
+//@   sim value limit=10000 init=none
 //@   requires @sim qis(Rq(data, 0), "InValue.Str@top") && Rdepth(data, 0) == 0
 //@   candidates @sim Rdepth(data, p) == 0
 //@   measure pe - p
@@ -225,7 +225,7 @@ package rjson
 //@   candidates 0 <= p; p < pe; 0 <= segStart; segStart <= p
 //@   candidates p == segStart + 1; p == segStart + 2; p == segStart + 3; p == segStart + 4; p == segStart + 5
 //@   candidates data[segStart] == '\\'; data[segStart+1] == 'u'; hexdigit(data[segStart+2]); hexdigit(data[segStart+3]); hexdigit(data[segStart+4])
-//@   sim value init=none
+//@   sim value limit=10000 init=none
 //@   requires @sim qis(Rq(data, 0), "InValue.Str@top") && Rdepth(data, 0) == 0
 //@   candidates @sim Rdepth(data, p) == 0
 //@   measure pe - p
@@ -233,7 +233,7 @@ package rjson
 //
 //@ func UnescapeStringContent(data, dst) (val, p, err)
 //@   input data
-//@   sim value init=none
+//@   sim value limit=10000 init=none
 //@   requires @sim qis(Rq(data, 0), "InValue.Str@top") && Rdepth(data, 0) == 0
 //@   ensures @sim [C06] qis(Rq(data, len(data)), "InValue.Str@top") ==> err == nil && p == len(data)
 //@   ensures [C16] err == nil ==> len(val) >= len(dst) && forall(j, 0, len(dst), val[j] == dst[j])
@@ -398,6 +398,10 @@ package rjson
 //@   defines err == nil ==> val == rval(ReadUint, data) && p == rp(ReadUint, data)
 //
 //@ func ReadFloat64(data) (val, p, err)
+//@   sim value limit=10000
+//@   ensures @sim [C04,C08,C13] err == nil ==> accepts(data) && p == endof(data)
+//@   ensures @sim [C04,C08,C13] err != nil && err != fp.errRange ==> !(accepts(data) && wsrun(data, 0) < len(data) && (data[wsrun(data, 0)] == '-' || digit(data[wsrun(data, 0)])))
+//@   ensures [C13] err == nil ==> tokclass(data[wsrun(data, 0)]) == 3
 //@   ensures [C19,C20] ghost_alloc == old(ghost_alloc)
 //@   ensures [C19,C20] err == nil ==> ghost_alloc == old(ghost_alloc)
 //@   ensures [C20] ghost_alloc <= old(ghost_alloc) + 256
@@ -429,7 +433,7 @@ package rjson
 //@ func ReadStringBytes(data, buf) (val, p, err)
 //@   ensures @alloc [C20] err == nil ==> ghost_alloc <= old(ghost_alloc) + 4*len(buf) + 16*p + 1024
 //@   input data
-//@   sim value
+//@   sim value limit=10000
 //@   ensures @sim [C06,C08] err == nil ==> accepts(data) && p == endof(data) && data[wsrun(data, 0)] == '"'
 //@   ensures @sim [C06,C08] err != nil ==> !(accepts(data) && wsrun(data, 0) < len(data) && data[wsrun(data, 0)] == '"')
 //@   loop 1 invariant @sim qis(Rq(data, p), "InValue.Str@top") && Rdepth(data, p) == 0
@@ -443,7 +447,7 @@ package rjson
 //
 //@ func ReadString(data, buf) (val, p, err)
 //@   input data
-//@   sim value
+//@   sim value limit=10000
 //@   ensures @sim [C06,C08] err == nil ==> accepts(data) && p == endof(data) && data[wsrun(data, 0)] == '"'
 //@   ensures @sim [C06,C08] err != nil ==> !(accepts(data) && wsrun(data, 0) < len(data) && data[wsrun(data, 0)] == '"')
 //@   loop 1 invariant @sim qis(Rq(data, p), "InValue.Str@top") && Rdepth(data, p) == 0
